@@ -6,6 +6,7 @@
 From Coq Require Import List NArith ZArith Bool Arith Lia.
 From RecordUpdate Require Import RecordUpdate.
 From JV Require Import Bytes Msg SrvModel SrvLemmas SrvC06.
+From JV Require SrvNoCrash.
 Import ListNotations.
 
 (* 1. slots in use + free slots = K, in every state at a window boundary ... *)
@@ -86,9 +87,9 @@ Proof. exact acquire_in_enabled. Qed.
 Print Assumptions c06_acquire_enabled.
 
 Theorem c06_work_conserving : forall c s,
-  reach c s -> crash s = None -> quiescent s = true -> 0 < sem_free s ->
+  reach c s -> quiescent s = true -> 0 < sem_free s ->
   forall k t, nth_error (tasks s) k = Some t -> t_st t <> TWaiting /\ at_acquire s t = false.
-Proof. exact work_conserving. Qed.
+Proof. exact SrvNoCrash.c06_work_conserving_nc. Qed.
 Print Assumptions c06_work_conserving.
 
 (* 6a. a cancelled task is never waiting for a slot *)
